@@ -28,7 +28,7 @@ ASSUMPTIONS = [
 ]
 BUDGET = {
     "quick": {"examples": 1500, "workers": 8, "time_cap": 70},
-    "thorough": {"examples": 10000, "workers": 14, "time_cap": 1500},
+    "thorough": {"examples": 10000, "workers": 14, "time_cap": 900},
 }
 GRID_DESC = {
     "quick": "every integer in -64..2^17 and +-64 around 2^k, 3*2^k (k<=80) through normalize_piece_length; sizes around every 1000*2^k threshold through get_piece_length",
